@@ -38,9 +38,10 @@ type c16Case struct {
 
 // "+vendored": the threads' files import packages through vendored paths (the decorator strips the
 // vendor prefix of every resolved path: code that only runs for such paths)
+// "helpers": the threads use the package-level helpers decorator.Parse and decorator.Fprint.
 // "unshared+caching": every thread's restorer has a package-name resolver of its own that caches in a
 // plain map (legal: it is not shared); the library must not call it from several goroutines at once
-var c16ThreadScenarios = []string{"goast.New+guess", "goast.WithResolver(simple)+simple", "goast.New+guess.WithMap", "unshared", "unshared+vendored", "goast.New+guess+vendored", "unshared+caching"}
+var c16ThreadScenarios = []string{"goast.New+guess", "goast.WithResolver(simple)+simple", "goast.New+guess.WithMap", "unshared", "unshared+vendored", "goast.New+guess+vendored", "unshared+caching", "helpers"}
 
 // c16CachingRes is a stateful package-name resolver owned by one thread.
 type c16CachingRes struct {
@@ -198,6 +199,8 @@ func c16Resolvers(sc string) (shared func() resolver.DecoratorResolver, res reso
 	case "goast.New+guess.WithMap":
 		g := goast.New()
 		return func() resolver.DecoratorResolver { return g }, guess.WithMap(stdNames)
+	case "helpers":
+		return func() resolver.DecoratorResolver { return nil }, nil // decorator.Parse + decorator.Fprint (c16Body)
 	case "unshared+caching":
 		return func() resolver.DecoratorResolver { return goast.New() }, nil // restorer resolver made per thread (c16Body)
 	default: // unshared
@@ -211,6 +214,23 @@ type c16Result struct {
 }
 
 func c16Body(src string, dr resolver.DecoratorResolver, rr resolver.RestorerResolver, res *c16Result) func() {
+	if dr == nil {
+		// the package-level helpers, no import management
+		return func() {
+			f, err := decorator.Parse(src)
+			if err != nil {
+				res.err = "decorate: " + err.Error()
+				return
+			}
+			res.tree = snapshotNode(f)
+			var buf bytes.Buffer
+			if err := decorator.Fprint(&buf, f); err != nil {
+				res.err = "restore: " + err.Error()
+				return
+			}
+			res.out = buf.String()
+		}
+	}
 	return func() {
 		d := decorator.NewDecoratorWithImports(token.NewFileSet(), localPath, dr)
 		f, err := d.Parse(src)
